@@ -22,7 +22,11 @@
 ##################################################################
 def convert2Es6Format(value):
 # Convert double/float to str using the native Python formatter
-    fvalue = float(value)
+    try:
+        fvalue = float(value)
+    except OverflowError:
+        # An integer beyond the double range is infinite as an ES6 number
+        raise ValueError("Invalid JSON number: integer out of double range")
 #
 # Zero is a special case.  The following line takes "-0" case as well
 #
